@@ -74,7 +74,24 @@ SCORE_REPS = {
     "ties": ((10, 10, 20), (10, 20, 20)),
     "alltied": ((10, 10), (10, 10)),
 }
+SCORE_REPS_THOROUGH = dict(SCORE_REPS, **{
+    "5v3": ((10, 30, 50, 70, 90), (20, 40, 60)),
+    "3v5inv": ((60, 80, 100), (10, 20, 30, 40, 50)),
+    "crosstie-lo": ((10, 30, 40), (10, 20)),
+    "crosstie-hi": ((10, 20, 40), (30, 40)),
+    "dup-within": ((10, 10, 30, 30), (20, 20, 40)),
+    "1v4": ((25,), (10, 20, 30, 40)),
+})
 EASY_REPS = ((0, 0), (2, 0), (0, 3), (1, 2))
+EASY_REPS_THOROUGH = EASY_REPS + ((5, 1), (1, 7))
+
+
+def reps_for(tier):
+    return list((SCORE_REPS_THOROUGH if tier == "thorough" else SCORE_REPS).items())
+
+
+def easy_for(tier, quick_n=3):
+    return EASY_REPS_THOROUGH if tier == "thorough" else EASY_REPS[:quick_n]
 TARGET_REPS = tuple(F(a) / b for a, b in ((-1, 2), (0, 1), (1, 8), (1, 4), (1, 3), (1, 2), (2, 3), (3, 4), (7, 8), (1, 1), (3, 2)))
 EXTREME_TARGETS = (F(-1, 2), F(0), F(1), F(1) + F(1, 1000), F(3, 2), F(5, 4), F(2))
 
